@@ -88,6 +88,16 @@ CLAIMED = {
    design_ref="DESIGN.md section 6, C15",
    note="Trusted: Coq kernel, extraction (ExtrOcamlBasic), OCaml driver incl. float_of_string as f64 parser and identity as LZ4, Rust harness, generators and the Python oracle computed from the abstract history. ",
    technique="fault enumeration over all cut points; correspondence with the Coq model extracted to OCaml + prefix oracle"),
+ "C08": dict(
+   category="translation_validation",
+   text="The Gallina model of HierarchyBuilder's pointer structure (scope stack with flattened entries and cached last children, "
+        "child/next links, duplicate-scope search, handle table) and of the Hierarchy navigation (items/vars/scopes chains, full_name, "
+        "lookup_scope, lookup_var_with_index, get_signal_tpe) is run, extracted to OCaml, against the real builder (hook) on every op "
+        "list of length <= 6 over a 6-symbol alphabet (55 986 lists, incl. unbalanced ones that must panic alike) and on random lists to "
+        "length 200; oracle: an independent rose-tree specification. builder_refines_tree is not yet proved in Coq, hence the level.",
+   design_ref="DESIGN.md section 6, C08",
+   note="Trusted: Coq kernel, extraction, OCaml driver, Rust harness, Python rose-tree specification. File front ends (VCD/FST/GHW) reach the builder through C09/C10/C11.",
+   technique="correspondence: Coq model extracted to OCaml vs real builder (exhaustive small scope) + rose-tree oracle"),
 }
 
 NOT_YET = {}
